@@ -5,6 +5,7 @@ go 1.24
 require (
 	github.com/IBM/sarama v1.45.0
 	github.com/linkedin/Burrow v0.0.0
+	github.com/linkedin/go-zk v0.1.4
 	github.com/spf13/viper v1.19.0
 	go.uber.org/zap v1.27.0
 )
@@ -32,7 +33,6 @@ require (
 	github.com/julienschmidt/httprouter v1.3.0 // indirect
 	github.com/karrick/goswarm v1.10.0 // indirect
 	github.com/klauspost/compress v1.17.11 // indirect
-	github.com/linkedin/go-zk v0.1.4 // indirect
 	github.com/magiconair/properties v1.8.9 // indirect
 	github.com/mitchellh/mapstructure v1.5.0 // indirect
 	github.com/munnerz/goautoneg v0.0.0-20191010083416-a7dc8b61c822 // indirect
